@@ -397,7 +397,11 @@ class RetryExecutor(CanCustomizeBind, Executor):
         # - The only other path for removing a job is in delegate_callback, but the
         #   job is only removed *after* set_result/set_exception which would wait
         #   for the future's lock.
-        assert found_job, "Cancel called on orphan %s" % future
+        if not found_job:
+            # The job is no longer queued: another thread has already taken it
+            # and is about to resolve the future, so it is too late to cancel.
+            self._log.debug("Could not cancel, no job for %s", future)
+            return False
 
         self._log.debug("Try cancel delegate: %s", found_job)
 
